@@ -164,6 +164,8 @@ export async function run(ctx) {
     const caseSeed = ctx.rng.u32()
     const r = new Rng(caseSeed)
     const fs_ = genFileSet(r, { withInclude: false })
+    // identifiers of the full documented alphabet (`$` and `_` anywhere, digits after the first character)
+    if (r.bool(0.3)) fs_.files[fs_.main].children.push({ t: 'el', tag: 'i', attrs: [{ fam: 'plain', name: 'v', value: M.ev(X.bin('+', X.id(r.pick(['cls$name', '$', '$_', '_1', 'a$', '$9x'])), X.mem(X.id('$c'), r.pick(['_d$', '$', 'x$y']))) ) }], children: [{ t: 'text', v: M.ev(X.obj([{ k: 'kv', name: r.pick(['k$', '_k', '$']), e: X.id('_e1$') }])) }] })
     const multiline = r.bool(0.6)
     const st = { rng: r, spacing: r.bool(0.5), entities: r.bool(0.4) ? 0.2 : 0, layout: multiline, between: true, shuffleAttrs: r.bool(0.5), unquoted: true }
     let clean
